@@ -8061,6 +8061,8 @@ void SoPlexBase<R>::_removeRowsReal(int perm[])
 {
    assert(_realLP != nullptr);
 
+   const int oldsize = numRows();
+
    _realLP->removeRows(perm);
 
    if(_isRealLPLoaded)
@@ -8069,14 +8071,14 @@ void SoPlexBase<R>::_removeRowsReal(int perm[])
    }
    else if(_hasBasis)
    {
-      for(int i = numRows() - 1; i >= 0 && _hasBasis; i--)
+      // perm describes an order-preserving compaction (perm[i] <= i), so copy in ascending order over the old range
+      for(int i = 0; i < oldsize && _hasBasis; i++)
       {
          if(perm[i] < 0 && _basisStatusRows[i] != SPxSolverBase<R>::BASIC)
             _hasBasis = false;
          else if(perm[i] >= 0 && perm[i] != i)
          {
             assert(perm[i] < numRows());
-            assert(perm[perm[i]] < 0);
 
             _basisStatusRows[perm[i]] = _basisStatusRows[i];
          }
@@ -8127,6 +8129,8 @@ void SoPlexBase<R>::_removeColsReal(int perm[])
 {
    assert(_realLP != nullptr);
 
+   const int oldsize = numCols();
+
    _realLP->removeCols(perm);
 
    if(_isRealLPLoaded)
@@ -8135,14 +8139,14 @@ void SoPlexBase<R>::_removeColsReal(int perm[])
    }
    else if(_hasBasis)
    {
-      for(int i = numCols() - 1; i >= 0 && _hasBasis; i--)
+      // perm describes an order-preserving compaction (perm[i] <= i), so copy in ascending order over the old range
+      for(int i = 0; i < oldsize && _hasBasis; i++)
       {
          if(perm[i] < 0 && _basisStatusCols[i] == SPxSolverBase<R>::BASIC)
             _hasBasis = false;
          else if(perm[i] >= 0 && perm[i] != i)
          {
             assert(perm[i] < numCols());
-            assert(perm[perm[i]] < 0);
 
             _basisStatusCols[perm[i]] = _basisStatusCols[i];
          }
